@@ -87,12 +87,18 @@ def obligations(tier: str, seed: int):
         obls.append(Obl(key=key, harness="h_time.py", params=params, cond_timeout=150 if tier == "quick" else 1500, path_timeout=15,
                         desc={"group": g, "unit": "_scan_number -> Literal.number -> literal_sql -> _scan_number", "len": [1, nlen]},
                         group=key))
+    from props.C05 import stmt_obligations
+
+    obls += stmt_obligations(tier, seed, "roundtrip")
     bounds = {
+        "statement": "statements of props/stmtctx.py CORPUS (core grammar + 6 dialect-specific ones) with a one-character hole over the alphabet "
+                     "a 1 space , ( ) ' \" + - * / = < > . ; : | & ! % [ ] LF inserted before / glued to / replacing a token: if the text parses, "
+                     "generate(parse(.)) parses again and is a fixpoint (whole tokenize -> parse -> generate pipeline run symbolically)",
         "time": f"every Unicode string s with 1 <= len(s) <= {tlen}; len {tlen + 1} explored under a time budget (counterexamples reported, absence inconclusive)",
         "number": f"every lexeme over the number alphabet (digits . e E _ + - x b space and the dialect's suffix letters) with len <= {nlen}",
         "time_groups": len(tg), "number_groups": len(ng),
-        "outside": "statement-level round trips (parse . generate on whole statements, the precedence ladder, the 33 parsers): "
-                   "the parser is not symbolically executable beyond a few characters (DESIGN 2) -- the bulk of C01 is NOT decided",
+        "outside": "statements other than one-character perturbations of the corpus; tree equality of the two parses in the base dialect; "
+                   "generator options",
     }
     return obls, bounds
 
@@ -108,7 +114,8 @@ def main(argv=None) -> int:
         obls = [o for o in obls if a.only in o.key]
     return run_e1(
         PROP, a.tier, a.seed, obls,
-        functions_encoded=["sqlglot.time.format_time", "sqlglot.trie.in_trie", "Dialect.TIME_MAPPING/TIME_TRIE/INVERSE_TIME_MAPPING/INVERSE_TIME_TRIE "
+        functions_encoded=["sqlglot Dialect.parse / Dialect.generate (tokenizer, parser and generator of the statement's dialect) on statements with a symbolic hole",
+                           "sqlglot.time.format_time", "sqlglot.trie.in_trie", "Dialect.TIME_MAPPING/TIME_TRIE/INVERSE_TIME_MAPPING/INVERSE_TIME_TRIE "
                            "(as built by the _Dialect metaclass)", "TokenizerCore._scan_number", "Generator.literal_sql"],
         stubs=["number obligations: alphabet-exact str predicates (engines/xh/alpha.py)"],
         assumptions=["CrossHair/z3 sound; counterexamples of the unit-level assertion are replayed through sqlglot.transpile(read=d, write=d) "
